@@ -217,3 +217,67 @@ func NPairs(ts []Template, tplIdx int) int {
 	}
 	return n
 }
+
+// RenameTricky renames every tensor of the entry (consistently, in the model and in the input sets) to names that
+// are legal but awkward: prefixes of one another, separators, spaces, non-ASCII, very long, or differing only in
+// case. Output names of recurrent nodes are left alone (LSTM on the pinned tree only knows Y / Y_h / Y_c).
+func RenameTricky(r *rng.R, e *Entry) {
+	style := r.Intn(6)
+	keep := map[string]bool{"Y": true, "Y_h": true, "Y_c": true, "": true}
+	names := map[string]string{}
+	n := 0
+	mk := func(old string) string {
+		if keep[old] {
+			return old
+		}
+		if v, ok := names[old]; ok {
+			return v
+		}
+		n++
+		var v string
+		switch style {
+		case 0:
+			v = "t" + fmt.Sprint(n) // t1, t10, t11 ...: prefixes of one another once n > 9
+			if n > 1 {
+				v = "t1" + fmt.Sprint(n)
+			}
+		case 1:
+			v = fmt.Sprintf("scope/%d:0", n)
+		case 2:
+			v = fmt.Sprintf("name with spaces %d", n)
+		case 3:
+			v = fmt.Sprintf("tensör_%d_名前", n)
+		case 4:
+			v = fmt.Sprintf("%0200d", n)
+		default:
+			v = []string{"x", "X", "x_", "X_", "xX", "Xx", "x.", "X."}[n%8] + fmt.Sprint(n/8)
+		}
+		names[old] = v
+		return v
+	}
+	m := e.Model
+	for i := range m.Inputs {
+		m.Inputs[i].Name = mk(m.Inputs[i].Name)
+	}
+	for i := range m.Inits {
+		m.Inits[i].Name = mk(m.Inits[i].Name)
+	}
+	for i := range m.Nodes {
+		for k := range m.Nodes[i].In {
+			m.Nodes[i].In[k] = mk(m.Nodes[i].In[k])
+		}
+		for k := range m.Nodes[i].Out {
+			m.Nodes[i].Out[k] = mk(m.Nodes[i].Out[k])
+		}
+	}
+	for i := range m.Outputs {
+		m.Outputs[i].Name = mk(m.Outputs[i].Name)
+	}
+	for i, set := range e.InputSets {
+		ns := map[string]*val.V{}
+		for k, v := range set {
+			ns[mk(k)] = v
+		}
+		e.InputSets[i] = ns
+	}
+}
